@@ -576,7 +576,11 @@ Definition enc_ret (r : ret N) : list Z :=
   | RList l => 3%Z :: zs l
   | RNum n => [4%Z; Z.of_N n]
   end.
-Definition enc_obs (b : obs N) : list Z := enc_ret (fst b) ++ (-7)%Z :: zs (snd b).
+(* the order in which destructors run inside one operation is not part of the property: compare as a multiset *)
+Fixpoint ins_sorted (x : N) (l : list N) : list N :=
+  match l with [] => [x] | y :: t => if x <=? y then x :: l else y :: ins_sorted x t end.
+Definition isort (l : list N) : list N := fold_right ins_sorted [] l.
+Definition enc_obs (b : obs N) : list Z := enc_ret (fst b) ++ (-7)%Z :: zs (isort (snd b)).
 
 Definition ring_state (q : ring N) : list Z :=
   [(-8)%Z; Z.of_N (len q); Z.of_N (cap q); Z.of_N (head q); Z.of_N (tail q)].
